@@ -423,6 +423,31 @@ def _raw_vars(ctx, f, fam):
     return raw
 
 
+def _octet_scalars(ctx, f, fam):
+    """Raw octets read from the stream and the integers taken out of them (ord / oct2int / indexing, and arithmetic on
+    those): values an attacker chooses freely."""
+    raw = _raw_vars(ctx, f, fam)
+    out = set(raw)
+    changed = True
+    while changed:
+        changed = False
+        for n in walk_own(f.node):
+            if isinstance(n, ast.Assign) and len(n.targets) == 1 and isinstance(n.targets[0], ast.Name) and n.targets[0].id not in out:
+                v = n.value
+                hit = False
+                for x in ast.walk(v):
+                    if isinstance(x, ast.Call) and call_name(x) in ('ord', 'oct2int') and names_used(x) & out:
+                        hit = True
+                    if isinstance(x, ast.Subscript) and isinstance(x.value, ast.Name) and x.value.id in out:
+                        hit = True
+                if not hit and isinstance(v, (ast.BinOp, ast.UnaryOp)) and names_used(v) & (out - raw):
+                    hit = True
+                if hit:
+                    out.add(n.targets[0].id)
+                    changed = True
+    return out
+
+
 def _sized_read(ctx, f, fam, var, cfg):
     """If `var` is the loop variable of `readFromStream(substrate, <size>, ...)` return the size expression."""
     rfs = ctx.func('codec.streaming.readFromStream')
@@ -456,6 +481,29 @@ def rule_partial(ctx):
                     elif isinstance(x, ast.Call) and isinstance(x.func, ast.Name) and x.func.id == 'ord' and x.args \
                             and isinstance(x.args[0], ast.Name) and x.args[0].id in wire:
                         site = (x.args[0].id, 0, norm(x))
+                    if site is None and isinstance(x, ast.Subscript) and isinstance(x.ctx, ast.Load) and \
+                            not isinstance(x.slice, ast.Slice) and const_int(x.slice) is None and \
+                            isinstance(x.value, (ast.Attribute, ast.Name, ast.Dict, ast.Tuple, ast.List)) and \
+                            not (isinstance(x.value, ast.Name) and x.value.id in wire) and (names_used(x.slice) & _octet_scalars(ctx, f, fam)):
+                        # a table looked up with a key taken from the wire: KeyError / IndexError unless caught or tested
+                        if n.ast is not None and G.under_log(x, f.node):
+                            continue
+                        nsites += 1
+                        caught = False
+                        for a in ancestors(x, f.node):
+                            if isinstance(a, ast.Try) and any(x is y for b_ in a.body for y in ast.walk(b_)):
+                                for h in a.handlers:
+                                    names_ = [norm(h.type)] if h.type is not None and not isinstance(h.type, ast.Tuple) else \
+                                        ([norm(e_) for e_ in h.type.elts] if h.type is not None else ['BaseException'])
+                                    if any(nm.split('.')[-1] in ('KeyError', 'IndexError', 'LookupError', 'Exception', 'BaseException') for nm in names_):
+                                        caught = True
+                        from sa.cfg import known_at as _known_at
+                        tested = _known_at(cfg, n, '%s in %s' % (norm(x.slice), norm(x.value)), True)
+                        okl = caught or tested
+                        ctx.ob('A3.partial', f, 'lookup `%s` with a key from the wire' % norm(x)[:50], okl,
+                               'a key that is not in the table raises KeyError / IndexError out of the decoder: not a PyAsn1Error' if not okl
+                               else ('inside try/except' if caught else 'membership tested'), node=x)
+                        continue
                     if site is None:
                         continue
                     if n.ast is not None and G.under_log(x, f.node):
